@@ -446,6 +446,12 @@ func (w *world) main() {
 		w.checkPending("loaded")
 	}
 
+	// the push timeout may be changed while nobody is pushing
+	if ch("cfg.retime", 3) == 0 {
+		simrt.Probe("timeout_changed_between_phases")
+		w.timeout = []time.Duration{time.Millisecond, 50 * time.Millisecond, 0}[ch("cfg.retime.to", 3)]
+		w.lane.SetTimeout(w.timeout)
+	}
 	if cancelFirst && w.live() {
 		// cancel with workers still gated and queues possibly full
 		if w.pendingAccepted() > 0 {
